@@ -74,10 +74,14 @@ def setup_env():
 # known findings
 def load_findings(prop: str):
     known, fixed = [], []
-    path = ROOT / "known_findings.txt"
-    if not path.exists():
-        return known, fixed
-    for line in path.read_text().splitlines():
+    paths = [ROOT / "known_findings.txt"]
+    if os.environ.get("VERIF_KNOWN_EXTRA"):  # development aid only (BUILDING.md); never set by MANIFEST commands
+        paths.append(Path(os.environ["VERIF_KNOWN_EXTRA"]))
+    lines = []
+    for path in paths:
+        if path.exists():
+            lines += path.read_text().splitlines()
+    for line in lines:
         line = line.strip()
         if not line or line.startswith("#"):
             continue
